@@ -41,6 +41,10 @@ def parseTid (s : String) : Option Tid :=
     match (s.drop 1).toString.toNat? with
     | some (n + 1) => some (.w n)
     | _ => none
+  else if s.startsWith "x" then       -- a turn of worker n in which the callback raises
+    match (s.drop 1).toString.toNat? with
+    | some (n + 1) => some (.wx n)
+    | _ => none
   else none
 
 def cLabel : CPc → String
@@ -270,9 +274,10 @@ def parseObsM (s : String) : Option Monitor.Obs :=
         match it.splitOn ":" with
         | [f, n] =>
           match f.toList, n.toNat? with
-          | [a, b, c], some k =>
-            if [a, b, c].all (fun ch => ch == '0' || ch == '1') then
-              some ({ started := a == '1', running := b == '1', done := c == '1', calls := k } : Monitor.ObsW)
+          | [a, b, c, d], some k =>
+            if [a, b, c, d].all (fun ch => ch == '0' || ch == '1') then
+              some ({ started := a == '1', running := b == '1', done := c == '1', crashed := d == '1',
+                      calls := k } : Monitor.ObsW)
             else none
           | _, _ => none
         | _ => none
@@ -280,7 +285,7 @@ def parseObsM (s : String) : Option Monitor.Obs :=
   | _ => none
 
 def showTidM : Monitor.Tid → String
-  | .ctl => "c" | .w i => s!"w{i + 1}"
+  | .ctl => "c" | .w i => s!"w{i + 1}" | .wx i => s!"x{i + 1}"
 
 def admitM (f : List String) : Option String :=
   match f with
